@@ -10,6 +10,7 @@ import Aldy.Driver.C06
 import Aldy.Driver.C07
 import Aldy.Driver.C08
 import Aldy.Driver.C09
+import Aldy.Driver.C04
 
 /-! Line-protocol driver: one JSON object per input line (`{"op": ..., ...}`), one JSON
 object per output line.  Errors are reported as `{"error": msg}`; the driver never guesses. -/
@@ -40,6 +41,8 @@ def dispatch (j : Json) : Except String Json := do
   | "normalize" => opNormalize j
   | "coords" => opCoords j
   | "catalogue" => opCatalogue j
+  | "minor_build" => opMinorBuild j
+  | "minor_readout" => opMinorReadout j
   | "ping" => pure (objJ [("pong", boolJ true)])
   | _ => .error s!"unknown op {op}"
 
